@@ -132,7 +132,7 @@ def finish(ctx, level_text, seed=0):
     for generic in (False, True):
         for k in ctx.order:
             o = ctx.obs[k]
-            if (o.rule in ("STORAGE", "ENGINE", "is_admin")) != generic:
+            if (o.rule in ("STORAGE", "CODEC", "ENGINE", "is_admin")) != generic:
                 continue
             if o.status == "discharged" and o.sample is not None and len(samples) < 12 and per_rule.get(o.rule, 0) < 2:
                 per_rule[o.rule] = per_rule.get(o.rule, 0) + 1
